@@ -622,7 +622,14 @@ func (p *packerV4) pack(options ...*bgp.MarshallingOption) []*bgp.BGPMessage {
 	// TotalPathAttributeLen + attributes + maxlen of NLRI).
 	// the max size of NLRI is 5bytes (plus 4bytes with addpath enabled)
 	maxNLRIs := func(attrsLen int) int {
-		return (maxUpdateMessageLength(options) - (19 + 2 + 2 + attrsLen)) / (5 + addpathNLRILen)
+		n := (maxUpdateMessageLength(options) - (19 + 2 + 2 + attrsLen)) / (5 + addpathNLRILen)
+		if n < 1 {
+			// less room than the worst-case NLRI needs (or none at all): one route per
+			// message; a route that really does not fit is rejected by
+			// BGPMessage.Serialize and logged by the sender, as packerMP does.
+			n = 1
+		}
+		return n
 	}
 
 	loop := func(attrsLen int, paths []*Path, cb func([]bgp.PathNLRI)) {
